@@ -19,6 +19,10 @@ Theorem C01_model_accepted : forall M ops,
 Proof. exact model_accepts. Qed.
 Print Assumptions C01_model_accepted.
 
+Theorem C01_acceptor_resp_completes : forall tr, accepts tr = true -> resp_completes tr.
+Proof. exact accepts_resp_completes. Qed.
+Print Assumptions C01_acceptor_resp_completes.
+
 (* ---- for ALL operation lists *)
 
 (* each request (tag) has at most one callback *)
@@ -46,6 +50,33 @@ Theorem C01_sent_after_issue : forall M ops,
   1 <= M -> noclash (trace_g M ops) -> sent_after_issue (trace_g M ops).
 Proof. exact model_sent. Qed.
 Print Assumptions C01_sent_after_issue.
+
+(* a response for a pending id completes it at once.  State level, ANY state: processing
+   [Resp id k] while e is pending under id emits exactly the callback of e's request with the
+   class of k, followed by whatever that callback's own programme does (r), and deletes the
+   entry; under the guard every other entry is kept; with an empty programme nothing else
+   changes at all. *)
+Theorem C01_resp_completes : forall M s id k e,
+  aget id (pending s) = Some e ->
+  let r := exec_prog M (e_prog e) s in
+  step M s (Resp id k) =
+    (set_pending (fst r) (adel id (pending (fst r))),
+     EResp id k :: ECb (e_tag e) (cls_of k) :: snd r) /\
+  aget id (pending (fst (step M s (Resp id k)))) = None /\
+  (noclash (snd r) -> forall id' e', id' <> id -> aget id' (pending s) = Some e' ->
+                      aget id' (pending (fst (step M s (Resp id k)))) = Some e') /\
+  (e_prog e = [] ->
+   step M s (Resp id k) =
+     (set_pending s (adel id (pending s)), [EResp id k; ECb (e_tag e) (cls_of k)])).
+Proof. exact resp_step. Qed.
+Print Assumptions C01_resp_completes.
+
+(* ... and on traces, for every history under the guard: the event right after a response
+   whose id is open is the callback of the request open under that id, with the response's kind *)
+Theorem C01_resp_completes_trace : forall M ops,
+  1 <= M -> noclash (trace_g M ops) -> resp_completes (trace_g M ops).
+Proof. exact model_resp_completes. Qed.
+Print Assumptions C01_resp_completes_trace.
 
 (* discard: a response for an id that is not pending - late, duplicate, unknown - leaves the
    state unchanged and emits only Dropped (any state) ... *)
@@ -161,11 +192,18 @@ Theorem C01_monitor_sound : forall ops, noclash (trace ops) -> monitor (ops, run
 Proof. exact monitor_model. Qed.
 Print Assumptions C01_monitor_sound.
 
+(* the model agrees with itself: run on its own output, the comparison of Corr.v (which feeds
+   the observed order of timeout callbacks back as hints) succeeds for every history under the
+   guard - so a reported disagreement is a behaviour the model excludes *)
+Theorem C01_agree_model : forall ops, noclash (trace ops) -> agree (ops, run ops) = true.
+Proof. exact agree_model. Qed.
+Print Assumptions C01_agree_model.
+
 (* ---- non-vacuity *)
 
 Definition ex_ops : list op :=
-  [SetNext 2147483631;
-   Do (AReq [AReq []; ANotify; ANoRoute [AUnser []]]); Do (AReq []); Do ANotify;
+  [SetNext 2147483631; Via 2;
+   Do (AReq [AReq []; ANotify; ANoRoute [AUnser []]; ANotifyNR]); Do (AReq []); Do ANotify; DirectNotify 0;
    Resp 2147483632 (KOk 7); Resp 2147483632 KNil; Resp 9 (KErr 1); Resp 1 (KBad 0);
    Advance 30000; Tick []; Advance 1; Tick [4]; Advance 30000; Tick []; Tick []].
 
@@ -175,10 +213,11 @@ Proof. vm_compute. reflexivity. Qed.
 
 Example C01_example_trace :
   trace ex_ops =
-  [EIdle;
+  [EIdle; EIdle;
    EDo; EIssue 0 2147483632 1000000; ESent 2147483632 0;
    EDo; EIssue 1 1 1000000; ESent 1 1;
    EDo; ESent 0 (-1);
+   EIdle;
    EResp 2147483632 (KOk 7); ECb 0 (RReply 7); EIssue 2 2 1000000; ESent 2 2; ESent 0 (-1);
      ENoRoute 3; ECb 3 RNoService; EIssue 4 3 1000000;
    EResp 2147483632 KNil; EDrop 2147483632;
